@@ -361,7 +361,7 @@ var specC06Select = Register(&Spec[SelectCase]{
 })
 
 func TestC06_Select(t *testing.T) {
-	specC06Select.Run(t, genSelectCase, 10000, 100000)
+	specC06Select.Run(t, genSelectCase, 25000, 150000)
 }
 
 // ------------------------------------------------------------------ SatisfiedBy
@@ -463,5 +463,5 @@ var specC06Sat = Register(&Spec[SatCase]{
 })
 
 func TestC06_Satisfied(t *testing.T) {
-	specC06Sat.Run(t, genSatCase, 20000, 200000)
+	specC06Sat.Run(t, genSatCase, 60000, 300000)
 }
